@@ -747,7 +747,7 @@ static void latch(void)
 		add_mutable(&c, &self_test_status, 4);
 		add_mutable(&c, slot_sha256_init, 8);
 		c.reset = latch_reset; c.check = latch_check; c.state_extra = latch_extra; c.unstick = latch_unstick;
-		c.preempt_bound = nthr == 4 ? (vk_thorough ? 3 : 2) : -1;
+		c.preempt_bound = nthr == 4 ? (vk_thorough ? 6 : 2) : -1;
 		if (nthr == 4 && vk_opt("latch-bound4", &lv)) c.preempt_bound = atoi(lv);
 		c.max_points = 300; c.max_executions = vk_thorough ? 4000000 : 400000;
 		latch_outcome = oc;
